@@ -629,6 +629,21 @@ def run(ck):
                         inp_, got_, [0.0, J2, -J2])
     except Exception as e:
         ck.fail("raises:remove_cutoff_coupling", "remove_cutoff_coupling under a units context raised %r" % (e,), {})
+    # whole-number values handed over as an integer array (800 nm, 12000 1/cm, 2 eV): stored as the exact conversion of the numbers
+    try:
+        from quantarhei import Hamiltonian
+        for un_, val_ in (("nm", 800), ("1/cm", 12000), ("eV", 2), ("THz", 375), ("meV", 1500), ("nm", 650)):
+            m.current_units["energy"] = "1/fs"; m._in_eu_count = 0; m._in_energy_units_context = False
+            with energy_units(un_):
+                hi_ = Hamiltonian(data=numpy.array([[0, 0], [0, val_]], dtype=int))
+                back_ = float(numpy.real(numpy.array(hi_.data)[1, 1]))
+            want_ = float(qr.convert(float(val_), un_, "int"))
+            ck.case(("integer-array", un_, val_), nontrivial=True, accessor="Hamiltonian(data=integer array)")
+            if abs(float(numpy.real(numpy.asarray(hi_._data)[1, 1])) - want_) > 1e-12 * abs(want_) or abs(back_ - val_) > 1e-9 * val_:
+                ck.fail("accessor:integer-array", "an energy given as a whole number in an integer array under energy_units(%r) is not stored as its conversion "
+                        "(or not read back as given)" % un_, {"units": un_, "value": val_}, [float(numpy.real(numpy.asarray(hi_._data)[1, 1])), back_], [want_, val_])
+    except Exception as e:
+        ck.fail("raises:integer-array", "Hamiltonian from an integer array under a units context raised %r" % (e,), {})
     # diagonalize() / undiagonalize() of a Hamiltonian called inside a units context: the stored energies afterwards are the eigenvalues in
     # internal units (the stored value does not depend on the context in which a method was called)
     try:
